@@ -46,14 +46,16 @@ type farm struct {
 	drop map[int]int // samples the job's metric_relabel_configs drop
 	hits map[int]int
 	down map[int]bool
+	last map[int]string // last request of a target as it arrived: path ? sorted query
 }
 
 func newFarm() *farm {
-	f := &farm{size: map[int]int{}, drop: map[int]int{}, hits: map[int]int{}, down: map[int]bool{}}
+	f := &farm{size: map[int]int{}, drop: map[int]int{}, hits: map[int]int{}, down: map[int]bool{}, last: map[int]string{}}
 	f.srv = httptest.NewServer(http.HandlerFunc(func(w http.ResponseWriter, r *http.Request) {
 		id, _ := strconv.Atoi(r.URL.Query().Get("id"))
 		f.mu.Lock()
 		f.hits[id]++
+		f.last[id] = WireForm(r.URL)
 		n, d, down := f.size[id], f.drop[id], f.down[id]
 		f.mu.Unlock()
 		if down {
@@ -71,6 +73,21 @@ func newFarm() *farm {
 		io.WriteString(w, sb.String())
 	}))
 	return f
+}
+
+// WireForm renders the parts of a URL that C02 compares behind the host: path and sorted query parameters.
+func WireForm(u *url.URL) string {
+	q := u.Query()
+	var ks []string
+	for k := range q {
+		ks = append(ks, k)
+	}
+	sort.Strings(ks)
+	var sb strings.Builder
+	for _, k := range ks {
+		fmt.Fprintf(&sb, "%s=%q;", k, q[k])
+	}
+	return u.Path + " ? " + sb.String()
 }
 
 func (f *farm) addr() string { return f.srv.Listener.Addr().(*net.TCPAddr).String() }
@@ -267,6 +284,7 @@ type Spec struct {
 	Sizes    map[int][2]int // target id -> kept, dropped
 	Interval time.Duration
 	Down     []int // targets that answer 503 from the start
+	Rich     bool  // a job with params (multi-valued), a non-canonical path and relabeling that rewrites path and labels
 }
 
 // Loop is a running system.
@@ -283,8 +301,76 @@ type Loop struct {
 	targets   map[int]bool // currently configured target ids
 }
 
+const richJobHead = `global:
+  scrape_interval: 15s
+  scrape_timeout: 10s
+scrape_configs:
+- job_name: job
+  metrics_path: /m//x
+  params:
+    module: [http_2xx, icmp]
+    debug: ['1']
+  relabel_configs:
+  - source_labels: [tid]
+    regex: t(.*)
+    target_label: team
+    replacement: team-$1
+  - source_labels: [__param_id]
+    regex: (.*[02468])
+    target_label: __metrics_path__
+    replacement: /even/./$1
+  - source_labels: [__param_id]
+    regex: (.*[37])
+    target_label: __param_module
+    replacement: tcp_$1
+  metric_relabel_configs:
+  - source_labels: [__name__]
+    regex: dropme.*
+    action: drop
+  static_configs:
+`
+
+// ConfigText returns the coordinator's configuration file as last written.
+func (l *Loop) ConfigText() string {
+	b, _ := os.ReadFile(filepath.Join(l.dir, "prometheus.yml"))
+	return string(b)
+}
+
+// Observed returns, for a configured target, the final labels the shard's Prometheus got for it from the generated
+// file (of the first shard that lists it) and the request that last arrived at the target.
+func (l *Loop) Observed(id int) (labels string, wire string) {
+	for _, s := range l.shards {
+		s.mu.Lock()
+		for _, t := range s.targets {
+			if t.URL().Query().Get("id") == strconv.Itoa(id) && labels == "" {
+				labels = t.Labels().String()
+			}
+		}
+		s.mu.Unlock()
+	}
+	l.farm.mu.Lock()
+	wire = l.farm.last[id]
+	l.farm.mu.Unlock()
+	return
+}
+
 func (l *Loop) writeConfig() error {
 	var sb strings.Builder
+	if l.Spec.Rich {
+		sb.WriteString(richJobHead)
+		var ids []int
+		for id := range l.targets {
+			ids = append(ids, id)
+		}
+		sort.Ints(ids)
+		for _, id := range ids {
+			fmt.Fprintf(&sb, "  - targets: ['%s']\n    labels:\n      __param_id: '%d'\n      tid: 't%d'\n", l.farm.addr(), id, id)
+		}
+		if len(ids) == 0 {
+			sb.WriteString("  - targets: []\n")
+		}
+		return os.WriteFile(filepath.Join(l.dir, "prometheus.yml"), []byte(sb.String()), 0644)
+	}
 	sb.WriteString("global:\n  scrape_interval: 15s\n  scrape_timeout: 10s\nscrape_configs:\n- job_name: job\n  metric_relabel_configs:\n  - source_labels: [__name__]\n    regex: dropme.*\n    action: drop\n  static_configs:\n")
 	var ids []int
 	for id := range l.targets {
